@@ -129,6 +129,7 @@ def impl_env(extra: dict | None = None) -> dict:
     env["PYTHONPATH"] = f"{REPO}:{VERIF / 'harness' / 'impl'}"
     env["PYTHONHASHSEED"] = "0"
     env["ANNET_VERIF"] = "1"
+    env["ANNET_VERIF_REPO_ROOT"] = str(REPO)
     env["PYTHONDONTWRITEBYTECODE"] = "1"
     env.pop("VIRTUAL_ENV", None)
     if extra:
